@@ -1,4 +1,262 @@
-import DeltaModel.Edits
+import Proofs.AlignSingleRun
+import Proofs.EditsInfer
+/-!
+C06 — within-line emphasis marks exactly what changed between paired lines.
+
+Every theorem is about the executable model functions of `DeltaModel/Align.lean` and
+`DeltaModel/Edits.lean` (what `drv_edits` runs and what the correspondence check compares with
+`src/align.rs` / `src/edits.rs`). Cost constants, candidate order, border initialisation and the
+comparison operators of the pairing test come from `DeltaModel/Generated/AlignCosts.lean`,
+regenerated from the source on every run.
+
+Vocabulary (defined in `Proofs/`): `ValidScript ops x y` — `ops` is an edit script from `x` to
+`y`; `scriptCost` — cost of a script; `secsG` — clusters of a list of sections; `keptText e` —
+text of the sections not tagged `e`; `SpansOk` — regex spans ordered and in range; `WsCons` —
+tokens with equal text have the same whitespace class.
+-/
+set_option linter.unusedVariables false
 namespace C06
-theorem placeholder : True := trivial
+open Align Edits Generated.Align
+
+/-! ## tokenize -/
+
+/-- Tokens concatenate to the line; the first token is empty. -/
+theorem tokenize_partition (line : List G) (spans : List (Nat × Nat)) (toks : List Tok)
+    (h : tokenize line spans = .ok toks) : toks.flatten = line ∧ toks.head? = some [] :=
+  tokenize_partition_aux line spans toks h
+
+/-- No slice panic on spans as `find_iter` yields them. -/
+theorem tokenize_total (line : List G) (spans : List (Nat × Nat))
+    (h : SpansOk line.length 0 spans) : ∃ toks, tokenize line spans = .ok toks :=
+  Edits.tokenize_total line spans h
+
+example : tokenize [⟨['a'], 1, false⟩, ⟨[' '], 1, true⟩, ⟨['b'], 1, false⟩, ⟨['c'], 1, false⟩] [(0, 1), (2, 4)]
+    = .ok [[], [⟨['a'], 1, false⟩], [⟨[' '], 1, true⟩], [⟨['b'], 1, false⟩, ⟨['c'], 1, false⟩]] := by rfl
+example : SpansOk 4 0 [(0, 1), (2, 4)] := by simp [SpansOk]
+
+/-! ## alignment -/
+
+/-- The operations read back from the table are a valid edit script (no-op-aligned tokens are
+equal, counts add up) whenever both sequences start with the same token — which `tokenize`
+guarantees. The read-back cannot fail. -/
+theorem ops_valid_script {α : Type} [DecidableEq α] (t : α) (x y : List α) :
+    ∃ ops, operations (t :: x) (t :: y) = .ok ops ∧ ValidScript ops (t :: x) (t :: y) ∧
+      countOp .deletion ops + countOp .noOp ops = x.length + 1 ∧
+      countOp .insertion ops + countOp .noOp ops = y.length + 1 := by
+  have hv := opsSpec_valid t x y
+  exact ⟨_, operations_eq _ _, hv, by simpa using hv.length_left, by simpa using hv.length_right⟩
+
+example : operations [0, 1, 2, 3] [0, 1, 5, 3] = .ok [.noOp, .noOp, .deletion, .insertion, .noOp] := by rfl
+
+/-- Without equal first tokens the claim is false (all border cells point at cell 0): the
+reason `tokenize` prepends the empty token. -/
+theorem ops_valid_script_needs_equal_heads :
+    ∃ (x y : List Nat) (ops : List Op), operations x y = .ok ops ∧
+      countOp .deletion ops + countOp .noOp ops ≠ x.length :=
+  ⟨[1, 2], [3], [.deletion, .insertion], by rfl, by decide⟩
+
+/-- The cost in the final cell is the cost of the script read back, and no valid script is
+cheaper (2 per deleted/inserted token, +1 per group of edits opened after a no-op). -/
+theorem dp_optimal {α : Type} [DecidableEq α] (t : α) (x y : List α) :
+    ∃ ops c, operationsAndCost (t :: x) (t :: y) = .ok (ops, c) ∧ scriptCost ops = c ∧
+      ∀ s, ValidScript s (t :: x) (t :: y) → c ≤ scriptCost s := by
+  have ho := opsSpec_optimal t x y
+  exact ⟨_, _, operationsAndCost_eq _ _, ho.1, ho.2⟩
+
+example : operationsAndCost [0, 1, 2, 3] [0, 1, 5, 3] = .ok ([.noOp, .noOp, .deletion, .insertion, .noOp], 5) := by
+  rfl
+
+/-- Pure insertion of one contiguous run `c :: b` of tokens: the operations are no-ops, exactly
+`|b|+1` insertions, no-ops — one contiguous emphasised stretch of the size of the difference,
+and nothing emphasised on the other line. -/
+theorem single_run_insertion {α : Type} [DecidableEq α] (t : α) (pre suf : List α) (c : α) (b : List α) :
+    ∃ k m, operations (t :: (pre ++ suf)) (t :: (pre ++ (c :: b) ++ suf)) =
+      .ok (List.replicate k .noOp ++ List.replicate (b.length + 1) .insertion ++ List.replicate m .noOp) := by
+  obtain ⟨k, m, h⟩ := opsSpec_single_insertion t pre suf c b
+  exact ⟨k, m, by rw [operations_eq, h]⟩
+
+/-- Dually for a pure deletion. -/
+theorem single_run_deletion {α : Type} [DecidableEq α] (t : α) (pre suf : List α) (c : α) (b : List α) :
+    ∃ k m, operations (t :: (pre ++ (c :: b) ++ suf)) (t :: (pre ++ suf)) =
+      .ok (List.replicate k .noOp ++ List.replicate (b.length + 1) .deletion ++ List.replicate m .noOp) := by
+  obtain ⟨k, m, h⟩ := opsSpec_single_deletion t pre suf c b
+  exact ⟨k, m, by rw [operations_eq, h]⟩
+
+example : operations [0, 1, 2] [0, 1, 7, 1, 2] = .ok [.noOp, .noOp, .insertion, .insertion, .noOp] := by rfl
+
+/-
+`single_run` for a general *replacement* run (`x = pre ++ a ++ suf`, `y = pre ++ b ++ suf`, both
+`a` and `b` non-empty) is NOT proved and is false as a statement about token counts: when `a`
+and `b` share tokens a cheaper script with two groups exists (`a = [u, v]`, `b = [v, w]`:
+delete `u`, keep `v`, insert `w` costs 6 < 9). What is proved is the pure insertion / deletion
+case above; replacement runs are covered by the exhaustive small-scope test of the check.
+-/
+
+/-! ## annotate -/
+
+/-- `annotate` cannot fail on tokenisable lines; the sections of each side concatenate to the
+line; with distinct tags, deleting the emphasised sections from both lines leaves the same text. -/
+theorem annotate_total (t : Tags) (m p : Line)
+    (hm : SpansOk m.gs.length 0 m.spans) (hp : SpansOk p.gs.length 0 p.spans) :
+    ∃ a, annotatePair t m p = .ok a := by
+  obtain ⟨x, hx⟩ := Edits.tokenize_total _ _ hm
+  obtain ⟨y, hy⟩ := Edits.tokenize_total _ _ hp
+  obtain ⟨a, ha, _⟩ := annotatePair_of_tokens t m p x y hx hy
+  exact ⟨a, ha⟩
+
+theorem annotate_partition (t : Tags) (m p : Line) (a : Annotated) (h : annotatePair t m p = .ok a) :
+    secsG a.minus = m.gs ∧ secsG a.plus = p.gs := by
+  obtain ⟨x, y, hx, hy⟩ := annotatePair_ok_tokens t m p a h
+  obtain ⟨a', ha', spec⟩ := annotatePair_of_tokens t m p x y hx hy
+  rw [h] at ha'; injection ha' with ha'; subst ha'
+  exact ⟨spec.minus_partition, spec.plus_partition⟩
+
+theorem annotate_sound (t : Tags) (m p : Line) (a : Annotated) (h : annotatePair t m p = .ok a)
+    (hd : t.noopDel ≠ t.del) (hi : t.noopIns ≠ t.ins) :
+    keptText t.del a.minus = keptText t.ins a.plus := by
+  obtain ⟨x, y, hx, hy⟩ := annotatePair_ok_tokens t m p a h
+  obtain ⟨a', ha', spec⟩ := annotatePair_of_tokens t m p x y hx hy
+  rw [h] at ha'; injection ha' with ha'; subst ha'
+  exact spec.sound hd hi
+
+/-- Identical lines (more generally: lines whose token texts coincide) carry no emphasis: every
+section has the line's no-op tag. -/
+theorem identical_no_emph (t : Tags) (m : Line) (a : Annotated) (h : annotatePair t m m = .ok a) :
+    (∀ s ∈ a.minus, s.tag = t.noopDel) ∧ (∀ s ∈ a.plus, s.tag = t.noopIns) := by
+  obtain ⟨x, y, hx, hy⟩ := annotatePair_ok_tokens t m m a h
+  have : x = y := by rw [hx] at hy; injection hy
+  subst this
+  exact annotatePair_identical t m m x x a hx hx rfl h
+
+private def gA : G := ⟨['a'], 1, false⟩
+private def gB : G := ⟨['b'], 1, false⟩
+private def gS : G := ⟨[' '], 1, true⟩
+private def lineAB : Line := ⟨[gA, gS, gB], [(0, 1), (2, 3)]⟩
+private def lineAA : Line := ⟨[gA, gS, gA], [(0, 1), (2, 3)]⟩
+
+example : annotatePair ⟨0, 1, 2, 3⟩ lineAB lineAA =
+    .ok ⟨[⟨0, [gA, gS]⟩, ⟨1, [gB]⟩], [⟨2, [gA]⟩, ⟨2, [gS]⟩, ⟨3, [gA]⟩], 2, 4⟩ := by rfl
+
+/-! ## infer_edits -/
+
+/-- Pairs never cross and every line appears exactly once, in order. -/
+theorem pairing_monotone (cfg : Cfg) (minus plus : List Line) (nd ni : List Tag) (r : Inferred)
+    (h : inferEdits cfg minus plus nd ni = .ok r) :
+    r.alignment.filterMap (·.1) = List.range minus.length ∧
+    r.alignment.filterMap (·.2) = List.range plus.length ∧
+    r.minus.length = minus.length ∧ r.plus.length = plus.length := by
+  obtain ⟨st, inv, hpi, rfl⟩ := inferEdits_inv r h
+  exact ⟨inv.al_m, by rw [inv.al_p, hpi], inv.am_len, by rw [inv.ap_len, hpi]⟩
+
+/-- A line without partner carries no emphasis: all its sections have its own no-op tag (and
+they concatenate to the line). -/
+theorem unpaired_no_emph (cfg : Cfg) (minus plus : List Line) (nd ni : List Tag) (r : Inferred)
+    (h : inferEdits cfg minus plus nd ni = .ok r) :
+    (∀ i, (some i, none) ∈ r.alignment → ∃ tag ml, nd[i]? = some tag ∧ minus[i]? = some ml ∧
+        r.minus[i]? = some [⟨tag, ml.gs⟩]) ∧
+    (∀ j, (none, some j) ∈ r.alignment → ∃ tag pl secs, ni[j]? = some tag ∧ plus[j]? = some pl ∧
+        r.plus[j]? = some secs ∧ (∀ s ∈ secs, s.tag = tag) ∧ secsG secs = pl.gs) := by
+  obtain ⟨st, inv, hpi, rfl⟩ := inferEdits_inv r h
+  exact ⟨inv.unp_m, inv.unp_p⟩
+
+/-- A paired line is annotated by `annotate` of exactly that pair (so `annotate_partition`,
+`annotate_sound`, `identical_no_emph` apply to it), and the pair passed the distance test. -/
+theorem paired_is_annotate (cfg : Cfg) (minus plus : List Line) (nd ni : List Tag) (r : Inferred)
+    (h : inferEdits cfg minus plus nd ni = .ok r) (i j : Nat) (hij : (some i, some j) ∈ r.alignment) :
+    ∃ ml pl tnd tni a, minus[i]? = some ml ∧ plus[j]? = some pl ∧ nd[i]? = some tnd ∧ tni ∈ ni ∧
+      annotatePair ⟨tnd, cfg.del, tni, cfg.ins⟩ ml pl = .ok a ∧
+      r.minus[i]? = some a.minus ∧ r.plus[j]? = some a.plus ∧
+      isHomologousPair cfg (decide (minus.length = plus.length)) a.numer a.denom = true := by
+  obtain ⟨st, inv, hpi, rfl⟩ := inferEdits_inv r h
+  obtain ⟨ml, pl, tnd, tni, a, h1, h2, h3, h4, h5, h6, h7, h8, _⟩ := inv.pair i j hij
+  exact ⟨ml, pl, tnd, tni, a, h1, h2, h3, h4, h5, h6, h7, h8⟩
+
+/-- `distance ≤ 1` always holds, so a threshold `p/q ≥ 1` (compared with `<=`) accepts all. -/
+theorem acceptsAll_of_threshold_ge_one (cfg : Cfg) (sameLen : Bool)
+    (hq : 0 < cfg.maxDen) (hp : cfg.maxDen ≤ cfg.maxNum) : AcceptsAll cfg sameLen := by
+  intro numer denom hnd
+  unfold isHomologousPair
+  have : distanceWithin maxTestStrict numer denom cfg.maxNum cfg.maxDen = true := by
+    have hs : maxTestStrict = false := by decide
+    unfold distanceWithin
+    rw [hs]
+    split
+    · simp only [Bool.false_eq_true, if_false, decide_eq_true_eq]
+      calc numer * cfg.maxDen ≤ denom * cfg.maxNum := Nat.mul_le_mul hnd hp
+        _ = cfg.maxNum * denom := Nat.mul_comm _ _
+    · simp
+  simp [this]
+
+/-- With the maximum distance set to 1 (or more) the i-th removed line is paired with the i-th
+added line, and only such pairs exist. -/
+theorem pairing_distance_one (cfg : Cfg) (minus plus : List Line) (nd ni : List Tag) (r : Inferred)
+    (hq : 0 < cfg.maxDen) (hp : cfg.maxDen ≤ cfg.maxNum)
+    (h : inferEdits cfg minus plus nd ni = .ok r) :
+    (∀ i j, (some i, some j) ∈ r.alignment → i = j) ∧
+    (∀ i, i < min minus.length plus.length → (some i, some i) ∈ r.alignment) :=
+  inferEdits_acc (acceptsAll_of_threshold_ge_one cfg _ hq hp) r h
+
+/-- With both thresholds 0, paired lines differ in nothing that has width after trimming: every
+emphasised section of a paired line has trimmed display width 0. (Plus side: assuming tokens
+with equal text have the same whitespace class. Zero-width non-whitespace characters are not
+excluded by this: see notes/C06.md.) -/
+theorem pairing_distance_zero (cfg : Cfg) (minus plus : List Line) (nd ni : List Tag) (r : Inferred)
+    (hmax : cfg.maxNum = 0) (hnaive : cfg.naiveNum = 0) (hq : 0 < cfg.maxDen) (hq' : 0 < cfg.naiveDen)
+    (hnd : ∀ tag ∈ nd, tag ≠ cfg.del) (hni : ∀ tag ∈ ni, tag ≠ cfg.ins)
+    (h : inferEdits cfg minus plus nd ni = .ok r) (i j : Nat) (hij : (some i, some j) ∈ r.alignment) :
+    ∃ secsM secsP, r.minus[i]? = some secsM ∧ r.plus[j]? = some secsP ∧
+      (∀ s ∈ secsM, s.tag = cfg.del → distanceContribution s.gs = 0) ∧
+      ((∀ x y ml pl, minus[i]? = some ml → plus[j]? = some pl → tokenize ml.gs ml.spans = .ok x →
+          tokenize pl.gs pl.spans = .ok y → WsCons x y) →
+        ∀ s ∈ secsP, s.tag = cfg.ins → distanceContribution s.gs = 0) := by
+  obtain ⟨ml, pl, tnd, tni, a, h1, h2, h3, h4, h5, h6, h7, h8⟩ :=
+    paired_is_annotate cfg minus plus nd ni r h i j hij
+  have hnum : a.numer = 0 := by
+    have hle := annotatePair_numer_le _ _ _ _ h5
+    unfold isHomologousPair distanceWithin at h8
+    have hs1 : maxTestStrict = false := by decide
+    have hs2 : naiveTestStrict = false := by decide
+    rw [hs1, hs2, hmax, hnaive] at h8
+    by_cases hd : a.denom > 0
+    · simp only [hd, if_true, Bool.false_eq_true, if_false, Nat.zero_mul, Nat.le_zero_eq,
+        Nat.mul_eq_zero, Bool.or_eq_true, Bool.and_eq_true, decide_eq_true_eq] at h8
+      omega
+    · omega
+  obtain ⟨x, y, hx, hy⟩ := annotatePair_ok_tokens _ ml pl a h5
+  obtain ⟨a', ha', spec⟩ := annotatePair_of_tokens ⟨tnd, cfg.del, tni, cfg.ins⟩ ml pl x y hx hy
+  rw [h5] at ha'; injection ha' with ha'; subst ha'
+  refine ⟨a.minus, a.plus, h6, h7, ?_, ?_⟩
+  · intro s hs htag
+    have := spec.emph_minus (hnd tnd (List.mem_of_getElem? h3)) s hs htag
+    omega
+  · intro hw s hs htag
+    have := spec.emph_plus (hni tni h4) (hw x y ml pl h1 h2 hx hy) s hs htag
+    omega
+
+private def cfg6 : Cfg := ⟨1, 3, 6, 10, 0, 1⟩
+example : (inferEdits cfg6 [lineAB, lineAA] [lineAA] [0, 0] [2]).map (·.alignment)
+    = .ok [(some 0, some 0), (some 1, none)] := by rfl
+
+/-! ## make_lines_have_homolog -/
+
+/-- One flag per minus line and per plus line, in order; a flag is set iff the line is paired. -/
+theorem homolog_flags (al : List (Option Nat × Option Nat)) :
+    (makeLinesHaveHomolog al).1.length = (al.filterMap (·.1)).length ∧
+    (makeLinesHaveHomolog al).2.length = (al.filterMap (·.2)).length := by
+  unfold makeLinesHaveHomolog
+  constructor
+  · induction al with
+    | nil => rfl
+    | cons e al ih =>
+      obtain ⟨a, b⟩ := e
+      cases a <;> simp_all
+  · induction al with
+    | nil => rfl
+    | cons e al ih =>
+      obtain ⟨a, b⟩ := e
+      cases b <;> simp_all
+
+example : makeLinesHaveHomolog [(none, some 0), (some 0, some 1), (some 1, none)]
+    = ([true, false], [false, true]) := by decide
+
 end C06
